@@ -18,7 +18,7 @@ func init() {
 
 func checkC20(e *core.Env) {
 	curEnv = e
-	e.SetRule("in-process streams of all stream kinds, both directions, 1..200 attempted sends, receiver stalling after k in {0,1,2,5} receives (optionally after Header()), with and without pending header frames; counters at the API boundary assert at every successful send return: completed sends <= receives started by the peer + 1; the stalled sender is observed parked inside SendMsg, then one of {peer receives, peer finishes, context ends} is applied and the send must return; distinct = (direction, kind, k, headers, release)")
+	e.SetRule("in-process streams of all stream kinds, both directions, 1..200 attempted sends, receiver stalling after k in {0,1,2,5} receives (optionally after Header()), with and without pending header frames; counters at the API boundary assert at every successful send return: completed sends <= receives started by the peer + 1; the stalled sender is observed parked inside SendMsg, then one of {peer receives, peer finishes, context ends} is applied and the send must return; distinct = (direction, kind, k, headers, release); when the receiver goes on, every send has succeeded and everything offered has arrived (backpressure is waiting, not failing); second phase: a full-duplex handler whose pusher goroutine is blocked while the handler receives from a client that sends before it listens (the directions are independent), and a single-response method whose handler keeps sending after the client failed the call (the handler's sends end although the caller's context lives on)")
 	e.Assume("a receive counts as started when the application calls RecvMsg or Header(); the bound is read after the send returned, which can only loosen it")
 	runC20(e, e.N(240, 3000))
 }
@@ -204,6 +204,75 @@ func runC20(e *core.Env, n int) {
 		}
 		if i < 3 {
 			e.Sample(map[string]any{"direction": dir, "kind": sc.Kind.String(), "attempted_sends": nsend, "receiver_stalls_after": k, "release": release, "sends_completed_at_stall": sendsAtStall})
+		}
+	})
+
+	// the two directions are independent, and a peer that has given up releases the other side
+	e.Cases("peer-behaviour", e.N(40, 400), func(i int, r *rand.Rand) {
+		tag := fmt.Sprintf("%016x", r.Uint64())
+		sc := &Script{}
+		variant := []string{"independent-directions", "peer-gave-up"}[i%2]
+		nsend := 0
+		switch variant {
+		case "independent-directions":
+			// a full-duplex handler: one goroutine pushes responses nobody takes yet, the handler itself receives;
+			// the client says everything it has to say before it starts to listen
+			nsend = pick(r, 2, 3, 5, 9)
+			sc.Kind = Bidi
+			for j := 0; j < nsend; j++ {
+				sc.Sender = append(sc.Sender, Op{Op: "send", Msg: genMsg(r, fmt.Sprintf("%s/%d", tag, j), false)})
+			}
+			sc.Sender = append(sc.Sender, Op{Op: "close"})
+			sc.Receiver = []Op{{Op: "recvall"}}
+			sc.RecvAfterSend = true
+			sc.Handler = []Op{{Op: "bg-sends", Msg: genMsg(r, tag+"/pushed", false)}, {Op: "recvall"}}
+		case "peer-gave-up":
+			// a single-response method whose handler keeps producing responses: the client fails the call after the
+			// second one and stops listening; the handler's sends then end (with an error) although the caller's
+			// context lives on
+			sc.Kind = ClientStream
+			sc.Sender = []Op{{Op: "send", Msg: genMsg(r, tag+"/req", false)}, {Op: "close"}}
+			sc.Receiver = []Op{{Op: "recv"}}
+			sc.RecvAfterSend = true
+			sc.Handler = []Op{{Op: "recvall"}}
+			for j := 0; j < 5; j++ {
+				sc.Handler = append(sc.Handler, Op{Op: "send", Msg: genMsg(r, fmt.Sprintf("%s/resp%d", tag, j), false)})
+			}
+		}
+		run := inp.Svc.NewRun(sc, "inproc")
+		done := make(chan struct{})
+		go func() {
+			run.Exec(inp.CC, nil, 10*time.Minute)
+			close(done)
+		}()
+		fin, stuck, dump := waitDoneOrStuck(done, 60*time.Second)
+		e.Eval("peer-behaviour|"+variant+fmt.Sprintf("|n=%d", nsend), true)
+		w := map[string]any{"script": sc, "events": run.Events()}
+		if !fin {
+			run.Cancel()
+			run.ReleaseAll()
+			<-done
+			inp.Svc.Forget(run)
+			if stuck {
+				w["goroutines"] = trunc(dump, 20000)
+				e.Violate("backpressure/"+variant+"/stuck", fmt.Sprintf("%s: the call did not finish while the caller's context was alive: %s", variant, parkedSummary(dump)), w)
+			} else {
+				e.Inconclusive("C20 peer-behaviour %s: still running after 60 s", variant)
+			}
+			return
+		}
+		run.Cancel()
+		inp.Svc.Forget(run)
+		if variant == "independent-directions" {
+			arrived := 0
+			for _, ev := range run.Rets("h", "recv") {
+				if ev.Msg != nil {
+					arrived++
+				}
+			}
+			if arrived != nsend {
+				e.Violate("backpressure/independent-directions/not-all-delivered", fmt.Sprintf("the client sent %d messages while responses were piling up; the handler received %d", nsend, arrived), w)
+			}
 		}
 	})
 }
